@@ -103,6 +103,14 @@ class Explorer:
             if err is None:
                 self.count("privsm_setup_statements")
                 return
+            if err == "internal error" and q.startswith("CREATE USER"):
+                # a panic caught by the query executor: metaclient.Client.CreateUser clones the catalogue copy without holding
+                # the client's lock while another CREATE USER is being applied to it (index out of range in Data.CloneUsers);
+                # seen about once in 1000-2500 concurrent CREATE USER statements.  Outside this property; the set-up asks again
+                # (CREATE USER of an existing user with the same password answers ok).
+                self.count("privsm_create_user_internal_error_retried")
+                time.sleep(0.05)
+                continue
             if "user not found" not in err:
                 break
             time.sleep(0.25)  # the catalogue copy of the sql node lags the acknowledgement of CREATE USER
